@@ -1,0 +1,50 @@
+//go:build verif
+
+package throttler
+
+// Contracts for govc (/verif). Comment-only file: no executable code, not part of the default build.
+
+/*@
+struct NumGoRoutinesThrottler
+  invariant positive-limit: max >= 1
+
+// each method is one atomic step on the counter
+func (ngrt *NumGoRoutinesThrottler) CanProcess() (r bool)
+  ensures below-limit: r == (ngrt.counter < ngrt.max)
+  assigns nothing
+
+func (ngrt *NumGoRoutinesThrottler) StartProcessing()
+  requires counter-fits-int32: ngrt.counter < 2147483647
+  ensures  one-more: ngrt.counter == old(ngrt.counter) + 1
+  assigns  ngrt.counter
+
+func (ngrt *NumGoRoutinesThrottler) EndProcessing()
+  requires counter-fits-int32: ngrt.counter > -2147483648
+  ensures  one-less: ngrt.counter == old(ngrt.counter) - 1
+  assigns  ngrt.counter
+
+func NewNumGoRoutinesThrottler(max int32) (r *NumGoRoutinesThrottler, err error)
+  ensures accepted-limit-is-positive: err == nil ==> r != nil && r.max == max && max >= 1 && r.counter == 0
+  ensures rejected: err != nil ==> max <= 0
+
+// Sequential use: a caller that starts processing only after CanProcess returned true keeps the counter within the limit.
+lemma sequential-check-then-start-keeps-limit
+  vars t *NumGoRoutinesThrottler
+  hyp  inv(t) && 0 <= t.counter && t.counter <= t.max
+  call ok = t.CanProcess()
+  hyp  ok
+  call _ = t.StartProcessing()
+  concl within-limit: t.counter <= t.max
+
+// Rely/guarantee (Owicki-Gries) stability: the assertion "counter < max" that a caller relies on between its CanProcess
+// and its StartProcessing must be stable under another goroutine's StartProcessing step. It is NOT (counter == max-1):
+// this is the check-then-act defect F43; the schedule A.CanProcess, B.CanProcess, A.Start, B.Start with max = 1 ends with
+// counter 2.
+lemma check-then-start-stable-under-other-start
+  vars t *NumGoRoutinesThrottler
+  hyp  inv(t) && 0 <= t.counter && t.counter <= t.max
+  call ok = t.CanProcess()
+  hyp  ok
+  call _ = t.StartProcessing()
+  concl other-goroutines-check-still-holds: t.counter < t.max
+@*/
